@@ -29,11 +29,13 @@ type Solver struct {
 	isAlt    bool
 	Retries  int
 	Rescued  int
+	diffCtr  int
 }
 
 type SolverStats struct {
 	Queries, Sat, Unsat, Unknown int
 	Retries, Rescued             int
+	Diffed, Disagree             int // queries re-asked of the other solvers (sampled) / verdicts that differed
 	Dur                          time.Duration
 	MaxQuery                     time.Duration
 }
@@ -41,6 +43,17 @@ type SolverStats struct {
 var forceUnknownEvery = func() int {
 	n := 0
 	fmt.Sscan(os.Getenv("GOSE_FORCE_UNKNOWN"), &n)
+	return n
+}()
+
+// diffEvery: every diffEvery-th decided query is re-asked of the other two solvers
+// (from a fresh state, the path's commands replayed) and the verdicts compared; a
+// disagreement makes the path inconclusive. GOSE_DIFF_SOLVERS=N overrides (0 = off).
+var diffEvery = func() int {
+	n := 400
+	if v := os.Getenv("GOSE_DIFF_SOLVERS"); v != "" {
+		fmt.Sscan(v, &n)
+	}
 	return n
 }()
 
@@ -97,6 +110,18 @@ func (s *Solver) Retry(t *Term) string {
 	}
 	s.Retries++
 	s.Stats.Retries++
+	s.startAlts()
+	for _, a := range s.alts {
+		if r := s.askAlt(a, t); r == "sat" || r == "unsat" {
+			s.Rescued++
+			s.Stats.Rescued++
+			return r
+		}
+	}
+	return "unknown"
+}
+
+func (s *Solver) startAlts() {
 	if s.alts == nil {
 		for _, k := range []string{"z3-new", "cvc5", "z3"} {
 			if k == s.kind {
@@ -109,27 +134,43 @@ func (s *Solver) Retry(t *Term) string {
 			}
 		}
 	}
+}
+
+func (s *Solver) askAlt(a *Solver, t *Term) string {
+	a.send("(reset)")
+	a.send("(set-option :produce-models true)")
+	a.send("(set-logic ALL)")
+	a.depth = 0
+	a.errSeen = ""
+	for _, c := range s.pathCmds {
+		a.send(c)
+	}
+	if t != nil {
+		// t's symbols are already declared in pathCmds (declare runs before Retry)
+		a.send("(assert " + t.String() + ")")
+	}
+	return a.Check()
+}
+
+// diff re-asks a decided query of the other solvers (sampled) and compares.
+func (s *Solver) diff(t *Term, verdict string) string {
+	if s.isAlt || diffEvery <= 0 || (verdict != "sat" && verdict != "unsat") {
+		return verdict
+	}
+	s.diffCtr++
+	if s.diffCtr%diffEvery != 0 {
+		return verdict
+	}
+	s.startAlts()
+	s.Stats.Diffed++
 	for _, a := range s.alts {
-		a.send("(reset)")
-		a.send("(set-option :produce-models true)")
-		a.send("(set-logic ALL)")
-		a.depth = 0
-		a.errSeen = ""
-		for _, c := range s.pathCmds {
-			a.send(c)
-		}
-		if t != nil {
-			// t's symbols are already declared in pathCmds (declare runs before Retry)
-			a.send("(assert " + t.String() + ")")
-		}
-		r := a.Check()
-		if r == "sat" || r == "unsat" {
-			s.Rescued++
-			s.Stats.Rescued++
-			return r
+		r := s.askAlt(a, t)
+		if (r == "sat" || r == "unsat") && r != verdict {
+			s.Stats.Disagree++
+			return fmt.Sprintf("error: solver disagreement: %s says %s, %s says %s", s.kind, verdict, a.kind, r)
 		}
 	}
-	return "unknown"
+	return verdict
 }
 
 func (s *Solver) send(line string) {
@@ -248,6 +289,8 @@ func (s *Solver) CheckWith(t *Term) string {
 	s.send("(pop)")
 	if r != "sat" && r != "unsat" && !strings.HasPrefix(r, "error") {
 		r = s.Retry(t)
+	} else {
+		r = s.diff(t, r)
 	}
 	return r
 }
@@ -257,6 +300,8 @@ func (s *Solver) CheckPath() string {
 	r := s.Check()
 	if r != "sat" && r != "unsat" && !strings.HasPrefix(r, "error") {
 		r = s.Retry(nil)
+	} else {
+		r = s.diff(nil, r)
 	}
 	return r
 }
